@@ -286,7 +286,9 @@ Qed.
    i.e. the theorems below without the restriction to a family F.
 
    PROVED (the _partial theorems below): the same statements for every run all of whose
-   configurations lie in a family F whose quorums pairwise intersect ([cxreachableF F]), and
+   COMMITTED configurations — those of the prefixes of a node's log up to its commit index, the
+   only ones a node ever decides with; configuration changes that are appended but never
+   committed do not count — lie in a family F whose quorums pairwise intersect ([cxreachableF F]), and
    (C15_conf_step_quorums_intersect) a configuration together with its successor under ONE
    change — add a voter, remove a voter, enter a joint configuration, leave it — is such a
    family.  So each single step of a membership change, taken alone, is proved safe, for any
@@ -465,6 +467,50 @@ Theorem C15_cc_config_one_step_behind_partial : forall F boot page1, inter_famil
 Proof. intros F boot page1 HF Hb x Hx y j Hj. exact (node_cfg_one_step_behind F HF boot Hb page1 x Hx y j Hj). Qed.
 Print Assumptions C15_cc_config_one_step_behind_partial.
 
+(* inside the envelope all deciding configurations lie on ONE chain: the configuration of a node
+   whose commit index is not larger is the configuration of a prefix of the other node's committed
+   log (from state-machine safety) *)
+Theorem C15_cc_configs_on_one_chain_partial : forall F boot page1, inter_family F ->
+  forall x, cxreachableF F boot page1 x ->
+  forall a b, n_commit (fst (cx_nodes x a)) <= n_commit (fst (cx_nodes x b)) ->
+    node_cfg boot (fst (cx_nodes x a))
+    = cfg_of boot (firstn (n_commit (fst (cx_nodes x a))) (n_log (fst (cx_nodes x b)))).
+Proof.
+  intros F boot page1 HF x Hx a b Hab. unfold node_cfg. f_equal.
+  destruct (cc_state_machine_safety F HF boot page1 x Hx a b (n_commit (fst (cx_nodes x a))) (le_n _) Hab) as (_ & _ & E).
+  exact E.
+Qed.
+Print Assumptions C15_cc_configs_on_one_chain_partial.
+
+(* the configurations that are ACTIVE at one node at one moment — the one it decides with and those
+   of every longer prefix of its own log (what it will decide with once more of its log commits) —
+   pairwise intersect: the premise [inter_family] is DERIVED for them from the
+   one-uncommitted-change rule.  What is still ASSUMED by the _partial theorems is intersection
+   ACROSS nodes: between the committed configurations of a node that lags two or more committed
+   changes behind and those of the others (the chain argument: such a node cannot win an election
+   nor commit; see WHAT REMAINS below). *)
+Theorem C15_cc_active_configurations_intersect_partial : forall F boot page1, inter_family F -> wfc boot ->
+  forall x, cxreachableF F boot page1 x ->
+  forall y j1 j2, n_commit (fst (cx_nodes x y)) <= j1 -> j1 <= j2 ->
+    inter_family [(c_in (cfg_of boot (firstn j1 (n_log (fst (cx_nodes x y))))),
+                   c_out (cfg_of boot (firstn j1 (n_log (fst (cx_nodes x y))))));
+                  (c_in (cfg_of boot (firstn j2 (n_log (fst (cx_nodes x y))))),
+                   c_out (cfg_of boot (firstn j2 (n_log (fst (cx_nodes x y))))))].
+Proof. intros F boot page1 HF Hb x Hx y j1 j2 H1 H2. exact (node_active_family F HF boot Hb page1 x Hx y j1 j2 H1 H2). Qed.
+Print Assumptions C15_cc_active_configurations_intersect_partial.
+
+(* the distance analysis at the level of one log, for ANY log (no run, no envelope): two prefixes
+   are at most one change apart — then all their quorums intersect — or the log holds two
+   configuration-change entries between them (which, above a commit index, the
+   one-uncommitted-change rule forbids) *)
+Theorem C15_cc_prefix_distance : forall boot, wfc boot -> forall L c c3, c <= c3 ->
+  inter_family [(c_in (cfg_of boot (firstn c L)), c_out (cfg_of boot (firstn c L)));
+                (c_in (cfg_of boot (firstn c3 L)), c_out (cfg_of boot (firstn c3 L)))] \/
+  exists j1 j2 e1 e2, c <= j1 /\ j1 < j2 /\ j2 < c3 /\
+    nth_error L j1 = Some e1 /\ nth_error L j2 = Some e2 /\ isconf (snd e1) = true /\ isconf (snd e2) = true.
+Proof. intros boot Hb L c c3 H. exact (prefix_distance boot Hb L c c3 H). Qed.
+Print Assumptions C15_cc_prefix_distance.
+
 (* WHAT REMAINS for the full statements (no envelope).  Everything above is proved for the
    invariant Inv F of Raft/RaftInv.v, whose quorum records are "a quorum of SOME configuration of
    F" (Qr F) and whose only two uses of intersection are
@@ -497,7 +543,16 @@ Print Assumptions C15_cc_config_one_step_behind_partial.
       neverq" (iK6, iK8 in step_append, step_grant, step_win, step_commit) needs this analysis,
       not only (P1);
    4. (P2) with the same three cases, after leader completeness for the winning candidate.
-   Estimated at several days; not started beyond the ingredients above. *)
+   Estimated at several days; not started beyond the ingredients above.
+   STATUS (r7): the premise [inter_family F] now only concerns the COMMITTED configurations of the
+   run (cxreachableF constrains prefixes up to the commit index; uncommitted changes that are later
+   overwritten no longer count).  DERIVED rather than assumed: intersection among all
+   configurations active at one node (C15_cc_active_configurations_intersect_partial), the log-level
+   distance dichotomy used by the three cases of step 3 (C15_cc_prefix_distance), and that all
+   deciding configurations lie on one chain (C15_cc_configs_on_one_chain_partial).  STILL ASSUMED:
+   intersection between committed configurations two or more changes apart, i.e. exactly the pairs
+   for which step 3 needs leader completeness inside the induction; no safety theorem was closed
+   without the premise, so all keep the _partial suffix. *)
 
 (* non-vacuity of the membership-change model: in a 3-voter cluster node 1 is elected, proposes
    "add voter 4" (payload 104), replicates it to node 2, commits it and from then on decides with
